@@ -15,6 +15,7 @@ package server
 import (
 	"context"
 	"fmt"
+	"os"
 	"sort"
 	"strings"
 	"testing"
@@ -106,6 +107,14 @@ func crashOne(t *testing.T, tape *verifsim.Tape, tier string, keepLog bool, k in
 		w.reg.plan = &faultPlan{}
 		w.publishGGUFModels()
 		minDownloadPartSize, maxDownloadPartSize = []int64{256, 1 << 10, 4 << 10}[d("partsize", 3)], 16<<10
+		// OLLAMA_NOPRUNE is a supported configuration: start-up then keeps partial
+		// downloads and the repeated pull resumes from the part files
+		noPrune := d("noprune", 4) == 0
+		if noPrune {
+			os.Setenv("OLLAMA_NOPRUNE", "1")
+			defer os.Unsetenv("OLLAMA_NOPRUNE")
+			res.Info["cases_noprune"]++
+		}
 		ctx := context.Background()
 		fail := func(stop verifsim.Stop, what string) {
 			res.Info["inconclusive_"+what+"_"+stop.String()]++
@@ -180,6 +189,9 @@ func crashOne(t *testing.T, tape *verifsim.Tape, tier string, keepLog bool, k in
 				return
 			}
 			ref.final = w.snapshot()
+			if noPrune {
+				ref.final = ref.final.onlyReferenced()
+			}
 			ref.finalOK = true
 			ref.describe = append([]string(nil), w.desc...)
 			if ref.opOK {
@@ -289,6 +301,11 @@ func crashOne(t *testing.T, tape *verifsim.Tape, tier string, keepLog bool, k in
 		for _, p := range final.audit(true) {
 			w.violate(prop, "store-audit", sig("after-redo-"+p.kind), "after the process died during %q (%s), restart and repeating the operation: %s", op, where, p.detail)
 			return
+		}
+		if noPrune {
+			// nothing removes debris or replaced layers in this configuration: only what
+			// names resolve to can be compared
+			final = final.onlyReferenced()
 		}
 		if selfFrom {
 			res.Info["comparison_skipped_self_from"]++
